@@ -215,7 +215,34 @@ func genValidFor(t *rapid.T, ep string) string {
 }
 
 func genParserInput(t *rapid.T, ep string) ParserInput {
-	switch rapid.IntRange(0, 19).Draw(t, "src") {
+	switch rapid.IntRange(0, 20).Draw(t, "src") {
+	case 20:
+		// sizes locked to the 4096-byte I/O buffer: the whole input, or its last line, is exactly
+		// 4096*k (-1, +0, +1) bytes long, with and without a final newline
+		v := strings.TrimRight(genValidFor(t, ep), "\r\n")
+		k := rapid.IntRange(1, 3).Draw(t, "edgek")*4096 + rapid.IntRange(-1, 1).Draw(t, "edged")
+		filler := rapid.SampledFrom([]string{"x", "1", "a ", ", b", " "}).Draw(t, "edgefill")
+		if rapid.Bool().Draw(t, "edgeLastLine") {
+			last := v
+			if i := strings.LastIndex(v, "\n"); i >= 0 {
+				last = v[i+1:]
+			}
+			if len(last) < k {
+				add := strings.Repeat(filler, (k-len(last))/len(filler)+1)[:k-len(last)]
+				v += add
+			} else {
+				v = v[:len(v)-(len(last)-k)]
+			}
+		} else {
+			if len(v) < k {
+				v += strings.Repeat(filler, (k-len(v))/len(filler)+1)
+			}
+			v = v[:k]
+		}
+		if rapid.Bool().Draw(t, "edgeNL") {
+			v += "\n"
+		}
+		return ParserInput{EP: ep, Input: []byte(v), Src: "edge"}
 	case 0, 1, 2, 3:
 		return ParserInput{EP: ep, Input: []byte(genValidFor(t, ep)), Src: "valid"}
 	case 4:
@@ -264,7 +291,7 @@ func genParserInput(t *rapid.T, ep string) ParserInput {
 
 var specC18Total = Register(&Spec[ParserInput]{
 	Prop: "C18", Name: "total",
-	Rule: "for each of 13 parser entry points (version.Parse; dependency.Parse / ParseArch / ParseArchitectures; ParagraphReader.All; ParseDsc, ParseChanges, ParseControl, ParseBinaryIndex, ParseSourceIndex, Unmarshal(&deb.Control); changelog.Parse / ParseOne) inputs from that parser's own grammar generator (4/20), line- and byte-level mutations and truncations of them (14/20), raw bytes (1/20) and a valid input repeated up to 64 KiB (1/20). Oracle: the call returns within 60 s without panicking; when it returns an error no pointer/slice/map result is non-nil and non-empty; a second call - made after 0..2 other generated inputs (often failing ones) went through the same entry point - gives a deeply equal value and the same error-ness. Non-trivial: grammar-derived input (valid, mutated or big); distinct by (entry point, bytes).",
+	Rule: "for each of 13 parser entry points (version.Parse; dependency.Parse / ParseArch / ParseArchitectures; ParagraphReader.All; ParseDsc, ParseChanges, ParseControl, ParseBinaryIndex, ParseSourceIndex, Unmarshal(&deb.Control); changelog.Parse / ParseOne) inputs from that parser's own grammar generator (4/20), line- and byte-level mutations and truncations of them (14/20), raw bytes (1/21), a valid input repeated up to 64 KiB (1/21), and inputs whose total length or last-line length is exactly 4096*k-1, 4096*k or 4096*k+1 with and without a final newline (1/21). Oracle: the call returns within 60 s without panicking; when it returns an error no pointer/slice/map result is non-nil and non-empty; a second call - made after 0..2 other generated inputs (often failing ones) went through the same entry point - gives a deeply equal value and the same error-ness. Non-trivial: grammar-derived input (valid, mutated or big); distinct by (entry point, bytes).",
 	Check: checkParserInput,
 })
 
@@ -372,7 +399,7 @@ func TestC18_Race(t *testing.T) {
 		c := ConcCase{}
 		for i := 0; i < n; i++ {
 			in := genParserInput(t, rapid.SampledFrom(entryPointNames).Draw(t, "ep"))
-			if in.Src == "big" {
+			if in.Src == "big" || in.Src == "edge" {
 				in.Input = in.Input[:min(len(in.Input), 2048)]
 			}
 			c.Inputs = append(c.Inputs, in)
